@@ -12,6 +12,7 @@
 -/
 import Shm.Props.C03
 import Shm.Lemmas.StepInv
+import Shm.Lemmas.Commute
 namespace Shm.C18
 open Shm
 
@@ -29,6 +30,25 @@ theorem C18_step_keeps_handles_distinct (s : State) (c : Call) (h : s.WF) : (ste
     sessions, operations and login state whether it is ordered before or after them -/
 theorem C18_failed_call_is_invisible (s : State) (c : Call) (hf : (step s c).2.rv ≠ CKR.OK) :
     (step s c).1.handles = s.handles ∧ ∀ id, loginOf (step s c).1 id = loginOf s id := C03.C03_failed_frame s c hf
+
+/-- **calls of different sessions commute**: for any two session-local calls — C_EncryptInit/DecryptInit/SignInit/VerifyInit, C_DigestInit, every single-part,
+    update and final call of encryption, decryption, signing, verification and digesting, C_DigestKey — issued in DIFFERENT sessions, both orders leave the same state,
+    and each call returns in either order exactly what it returns when the other call does not happen at all.  So every interleaving of two threads that each run
+    cryptographic operations in a session of their own is explained by ANY sequential order, and each thread sees the results it would see alone. -/
+theorem C18_session_local_calls_commute (c1 c2 : OpCall) (h1 h2 : Nat) (hc1 : c1.sess? = some h1) (hc2 : c2.sess? = some h2) (hne : h1 ≠ h2) (s : State) :
+    (stepOp (stepOp s c1).1 c2).1 = (stepOp (stepOp s c2).1 c1).1 ∧
+    (stepOp (stepOp s c1).1 c2).2 = (stepOp s c2).2 ∧
+    (stepOp (stepOp s c2).1 c1).2 = (stepOp s c1).2 :=
+  commute_frames (f := fun s => stepOp s c1) (g := fun s => stepOp s c2) hne
+    (frame_stepOp c1 h1 hc1 h2 hne) (frame_stepOp c2 h2 hc2 h1 (Ne.symm hne)) (loc_stepOp c1 h1 hc1) (loc_stepOp c2 h2 hc2) s
+
+/-- such a call changes at most the record of its own session: sessions of other threads, objects, tokens, login state and the handle counter are untouched -/
+theorem C18_session_local_calls_write_own_session (c : OpCall) (h : Nat) (hc : c.sess? = some h) (s : State) :
+    (stepOp s c).1 = s ∨ ∃ y, (stepOp s c).1 = { s with handles := s.handles.setSess h y } := loc_stepOp c h hc s
+
+/-- non-vacuity of the commutation theorem: an encryption update in session 1 and a digest final in session 2 are session-local calls of different sessions -/
+example : (OpCall.cryptUpdate true 1 (some 16) (some 16) { rv := 0, len := 16, data := none }).sess? = some 1 ∧
+    (OpCall.digestFinal 2 (some 32) { rv := 0, len := 32, data := none }).sess? = some 2 := ⟨rfl, rfl⟩
 
 /-- non-vacuity: two sessions opened one after the other get different handles -/
 example : ((run {} [.initLib]).WF) := wf_run {} _ wf_init
